@@ -746,6 +746,41 @@ def matrix_programs():
                     e, txt = [1, 0], a["name"]
                     b = _decl(1, t, (e, txt))
                     out.append(_prog([a, b], [], [], vmap=[["77" if byid else a["name"], f64bits(v)]], kind="matrix-values"))
+    # purely abstract float arithmetic (WGSL: evaluated in binary64, converted once)
+    for op, x, y in ((ADD, "0.1", "2.718"), (SUB, "0.1", "0.3"), (MUL, "0.1", "0.1"), (DIV, "0.1", "0.3")):
+        xe, xt = lit_float(x, 0)
+        ye, yt = lit_float(y, 0)
+        for vm in ([], trigger):
+            out.append(_prog([_decl(0, F32, ([4, op, xe, ye], "(%s %s %s)" % (xt, BOPS[op], yt)))], [], [], vmap=vm))
+    out.append(_prog([_decl(0, F32, _neg(lit_float("2.5", 0)))], [], [], vmap=trigger))
+    out.append(_prog([_decl(0, I32, _neg(lit_int(5, 0)))], [], [], vmap=trigger))
+    # composition: each operator is right on converted operands, the float64 intermediate is not converted
+    for t, sfx in ((I32, 1), (U32, 2)):
+        a = _decl(0, t, lit_int(7, sfx))
+        two, twot = lit_int(2, sfx)
+        e = [4, MUL, [4, DIV, [1, 0], two], two]
+        txt = "((%s / %s) * %s)" % (a["name"], twot, twot)
+        out.append(_prog([a, _decl(1, t, (e, txt))], [], [], vmap=trigger))
+        out.append(_prog([a], [{"name": "gva", "ty": t, "init": e, "text": "var<private> gva: %s = %s;" % (TYNAME[t], txt)}], [], vmap=trigger))
+    a = _decl(0, F32, lit_float("16777216.0", 0))
+    one, onet = lit_float("1.0", 0)
+    e = [4, ADD, [4, ADD, [1, 0], one], one]
+    out.append(_prog([a, _decl(1, F32, (e, "((%s + %s) + %s)" % (a["name"], onet, onet)))], [], [], vmap=trigger))
+    # a derived override sees the supplied float64, not the converted value
+    for t, v in ((I32, 3.7), (U32, 3.7), (F32, 0.1), (BOOL, 2.0)):
+        a = _decl(0, t, _lit_for(t, 1 if t != F32 else 1.0))
+        if t == BOOL:
+            e, txt = [3, NOT, [1, 0]], "!(%s)" % a["name"]
+        else:
+            two, twot = _lit_for(t, 2 if t != F32 else 3.0)
+            e, txt = [4, MUL, [1, 0], two], "(%s * %s)" % (a["name"], twot)
+        out.append(_prog([a, _decl(1, t, (e, txt))], [], [], vmap=[[a["name"], f64bits(v)]]))
+        out.append(_prog([a], [{"name": "gva", "ty": t, "init": e, "text": "var<private> gva: %s = %s;" % (TYNAME[t], txt)}], [],
+                         vmap=[[a["name"], f64bits(v)]]))
+    # references to an override the MSL pass left unresolved
+    for t in (I32, U32, F32, BOOL):
+        a = _decl(0, t, _lit_for(t, 1 if t != F32 else 1.0))
+        out.append(_prog([a, _decl(1, t, ([1, 0], a["name"]))], [], [], vmap=[[a["name"], f64bits(float("nan"))]]))
     # lookup order, unknown keys, literal forms, const refs, inferred types, workgroup sizes
     a = _decl(0, I32, lit_int(7, 0), oid=5)
     out.append(_prog([a], [], [], vmap=[["5", f64bits(9.0)], [a["name"], f64bits(100.0)]]))
